@@ -528,3 +528,57 @@ pub mod whitespace {
         crate::utils::remove_trailing_white_spaces(text)
     }
 }
+
+/// Skip attributes (utils.rs, skip.rs).
+pub mod skip {
+    use super::*;
+    use rustc_ast::ast;
+    use rustc_ast_pretty::pprust;
+
+    /// A meta item as (kind, path, args): kind "w" word, "l" list, "nv" name-value; an argument of a
+    /// list that is a literal is ("lit", "", []).
+    #[derive(Debug, Clone)]
+    pub struct Meta(pub String, pub String, pub Vec<Meta>);
+
+    fn enc_inner(i: &ast::MetaItemInner) -> Meta {
+        match i {
+            ast::MetaItemInner::MetaItem(m) => enc(m),
+            ast::MetaItemInner::Lit(_) => Meta("lit".into(), String::new(), vec![]),
+        }
+    }
+
+    fn enc(m: &ast::MetaItem) -> Meta {
+        let path = pprust::path_to_string(&m.path);
+        match &m.kind {
+            ast::MetaItemKind::Word => Meta("w".into(), path, vec![]),
+            ast::MetaItemKind::List(l) => Meta("l".into(), path, l.iter().map(enc_inner).collect()),
+            ast::MetaItemKind::NameValue(_) => Meta("nv".into(), path, vec![]),
+        }
+    }
+
+    /// For every top-level item of `text`: `contains_skip(attrs)`, the attributes' meta items
+    /// (None when an attribute has no meta form), and whether the macro / attribute names in
+    /// `queries` are skipped in the context obtained from the item's attributes.
+    pub fn items(
+        text: &str,
+        queries: &[String],
+        config: &Config,
+    ) -> Option<Vec<(bool, Vec<Option<Meta>>, Vec<(bool, bool)>)>> {
+        with_crate(text, config, |krate, _ctx| {
+            krate
+                .items
+                .iter()
+                .map(|it| {
+                    let metas = it.attrs.iter().map(|a| a.meta().map(|m| enc(&m))).collect();
+                    let mut sc = crate::skip::SkipContext::default();
+                    sc.update_with_attrs(&it.attrs);
+                    let q = queries
+                        .iter()
+                        .map(|n| (sc.macros.skip(n), sc.attributes.skip(n)))
+                        .collect();
+                    (crate::utils::contains_skip(&it.attrs), metas, q)
+                })
+                .collect()
+        })
+    }
+}
